@@ -73,21 +73,30 @@ def input_unmodified(ctx, protos):
                     inputs.append(list(f))
                     inputs.append(gen_inputs.mutate(list(f), rng)[0])
         inputs += [gen_inputs.garbage(rng) for _ in range(3)]
+        for a in gen_inputs.param_assignments(p, rng, 1):
+            c, e = engine.fresh_encode(p, a, repeat_count=2)
+            if c is not None:
+                inputs += [list(f) for f in c.normalized_rlc]          # the frames of one key in transmission order
         inst = p['cls']()
+        handed = []          # every list handed over so far, with its contents at the time: none may change later either
         with engine.class_guard(p['cls']):
             for data in inputs:
                 if not data:
                     continue
                 before = list(data)
+                handed.append((data, before))
                 try:
                     inst.decode(data, p['frequency'])
                 except Exception:  # noqa
                     pass
                 ctx.count_eval(key=(name, tuple(before[:10]), len(before)))
-                if data != before:
+                changed = [(d, b) for d, b in handed if d != b]
+                if changed:
                     hits[name] = True
-                    ctx.report(name, 'decode modifies the caller\'s list', dict(n=len(before)),
-                               dict(protocol=name, data=before, after=data))
+                    d0, b0 = changed[0]
+                    ctx.report(name, 'decode modifies the caller\'s list', dict(n=len(b0)),
+                               dict(protocol=name, data=b0, after=d0, later_call=d0 is not data,
+                                    sequence=[b for _, b in handed]))
                     break
                 vlib.drain_workers()
         # through the dispatcher
